@@ -279,7 +279,7 @@ def run(chk, tier):
                               "pad": pick([2, 20, 60]), "combos": pick_combos(combos, rnd, 4 if thorough else 1), "sample": 2,
                               "selftest": 8 if si == 0 else 0, "probe_or_dummy": True})
     simple = [p for p in p1 if p["prog"]["instrs"][0]["op"] in ("add", "mul", "sub", "mul_add", "square")]
-    for h in (0, 1, 2, 3, 4):
+    for h in (0, 1, 2, 3):                   # cap height 4 (= the outer configuration's) is shape c0
         for k in range(4):
             cond_rows.append({"id": "o%d_%d" % (h, k), "slot": 100 + h, "prog": pick(simple)["prog"], "cfg": dict(STD, cap=h), "inputs": ["rand", "small:16", "rand"],
                               "pad": 4, "combos": [], "probe_or_dummy": True, "or_dummy_only": True})
@@ -315,8 +315,8 @@ def run(chk, tier):
     sc = judge_cond(rco, report_with_scenario)
     sd = judge_dummy(rdu, report_with_scenario)
     sy = judge_cyclic(rcy, report_with_scenario)
-    chk.evaluations += sc["cases"] + sd["proofs"] + sy["steps"]
-    chk.nontrivial += len(sc["combos"]) + sd["proofs"] + sy["steps"]
+    chk.evaluations += sc["cases"] + sc.get("or_dummy_cases", 0) + sd["proofs"] + sy["steps"]
+    chk.nontrivial += len(sc["combos"]) + sc.get("or_dummy_cases", 0) + sd["proofs"] + sy["steps"]
     chk.traces += sc["accept"] + sc["reject"] + sd["proofs"] + len(sy["histories"])
     chk.sample({"conditional_result": next((x for x in rco if "combo" in x and not x.get("unavailable")), None)})
     chk.sample({"cyclic_result": next((x for x in rcy if x.get("act") == "StepRec"), None)})
